@@ -82,7 +82,7 @@ def run(ctx):
     from perceval.components import Detector
     rng = ctx.rng
     BS_ = pcvl.BasicState
-    N = ctx.n(110, 2500)
+    N = ctx.n(110, 1500)
     cases = []
     for i in range(N):
         r = rng.fork(i)
@@ -167,6 +167,9 @@ def run(ctx):
                 sim.keep_heralds(cs["keep"])
                 res = sim.probs_svd(svd, p.detectors if cs["thr"] else None)
                 keep = cs["keep"]
+            if cond_cost(m, mix) > (6000 if ctx.quick() else 30000):
+                ctx.count("generated-but-too-costly-for-the-exact-model")
+                continue
             reqs.append((40, [m, c.U, mix, [[h, v] for h, v in heralds.items()], ps_tree_abs, F, keep, thr]))
             pend.append((cs, desc, res, (m if keep else len(cs["free"]))))
             # the same long-lived processor, re-configured after a first query: the answer must follow the new settings
@@ -225,6 +228,20 @@ def run(ctx):
     ctx.count("vm_compute_crosscheck", len(sample))
     if a != b:
         ctx.fail("extraction-vs-vm_compute", "extracted runner and vm_compute disagree", {"n": len(sample)})
+
+
+def cond_cost(m, mix):
+    """rough cost of the exact model: outputs of every tag group times the size of their permanents"""
+    import math
+    cost = 0
+    for _, groups in mix:
+        outs = 1
+        for g in groups:
+            n = sum(g)
+            outs *= math.comb(m + n - 1, n)
+            cost += math.comb(m + n - 1, n) * (m ** n) * max(n, 1)
+        cost += outs * len(groups)
+    return cost
 
 
 def level_ok(r):
